@@ -130,7 +130,7 @@ def _one(c, r):
     off = [red[a] if sym[a] else 0 for a in range(3)]
     lo_t = [off[a] if sym[a] else 1 for a in range(3)]
     hi_t = [off[a] + 2 if sym[a] else red[a] - 1 for a in range(3)]
-    lo_s = [off[a] - 1 if sym[a] else 1 for a in range(3)]
+    lo_s = [off[a] - 2 if sym[a] else 1 for a in range(3)]  # symmetric about the plane: [n-2, n+2)
     hi_s = [off[a] + 2 if sym[a] else red[a] - 1 for a in range(3)]
     s["detectors"] = [
         {"kind": "field", "name": "touch", "lo": lo_t, "hi": hi_t, "exact": True},
@@ -167,6 +167,13 @@ def _one(c, r):
         ar = ar.aset("inv_permeabilities", jnp.asarray(im))
         af = af.aset("inv_permeabilities", jnp.asarray(to_full(im)))
     E0, H0 = sim.random_fields(rng, ar, br["objects"])
+    # parity consistency on the plane itself: samples that are their own mirror image with odd parity vanish
+    # (tangential E is zeroed by the wall already; the normal H component sampled on the plane must be zero too)
+    for a in range(3):
+        if sym[a]:
+            idx = [a, slice(None), slice(None), slice(None)]
+            idx[a + 1] = 0
+            H0 = H0.at[tuple(idx)].set(0.0)
     ar = sim.set_fields(ar, E0, H0)
     Ef = jnp.asarray(_mirror_full(E0, "E", sym))
     Hf = jnp.asarray(_mirror_full(H0, "H", sym))
@@ -227,7 +234,14 @@ def _one(c, r):
         # restrict to cells of the detector box inside the light-cone mask
         lo_d = lo_t if name == "touch" else lo_s
         hi_d = hi_t if name == "touch" else hi_s
-        m = mask[lo_d[0] : hi_d[0], lo_d[1] : hi_d[1], lo_d[2] : hi_d[2]]
+        m = mask[lo_d[0] : hi_d[0], lo_d[1] : hi_d[1], lo_d[2] : hi_d[2]].copy()
+        if name == "straddle":
+            # the outermost low cell of an unfolded on-plane record has no mirror partner (it repeats its neighbour)
+            for a in range(3):
+                if sym[a]:
+                    sl = [slice(None)] * 3
+                    sl[a] = 0
+                    m[tuple(sl)] = False
         scl = float(np.abs(want).max())
         err = float(np.abs((got - want) * m[None, None]).max()) / scl if scl > 0 else 0.0
         r.worst("worst_rel_err_detector", err)
